@@ -53,6 +53,8 @@ def manifest(draw):
     for h in headers:
         text[h] = "hdr-%d\n" % draw(st.integers(0, 3))
     edges = []
+    aliases = []
+    alias_pool = []
     avail = list(sources)
     n = draw(st.integers(1, 7))
     for i in range(n):
@@ -74,9 +76,14 @@ def manifest(draw):
         # generator = 1: identical to an ordinary edge except that a changed command line does not re-run it,
         # so the manifest edits below never change a generator edge's command line
         e["gen"] = not (e["depfile"] or e["restat"] or e["rsp"]) and draw(st.integers(0, 5)) == 0
+        # an implicit dependency on a phony alias of earlier outputs (`build al: phony o1 o2`, `... | al`)
+        e["alias"] = draw(st.sampled_from(alias_pool)) if alias_pool and draw(st.integers(0, 2)) == 0 else None
         edges.append(e)
         avail += outs
-    aliases = []
+        if draw(st.integers(0, 4)) == 0:
+            produced_all = [o for d in edges for o in d["outs"]]
+            aliases.append({"name": "al%d" % i, "ins": draw(st.permutations(produced_all))[:draw(st.integers(1, min(2, len(produced_all))))]})
+            alias_pool.append("al%d" % i)
     if draw(st.booleans()):
         allouts = [o for e in edges for o in e["outs"]]
         aliases.append({"name": "all", "ins": draw(st.permutations(allouts))[:draw(st.integers(1, len(allouts)))]})
@@ -155,7 +162,9 @@ def to_desc(m):
     """The manifest as a bs_model description (for the evaluator)."""
     cmds = []
     for e in m["edges"]:
-        c = {"name": e["name"], "tool": "shell", "inputs": e["ins"] + e["implicit"], "order_only": e["orderonly"],
+        c = {"name": e["name"], "tool": "shell", "inputs": e["ins"] + e["implicit"],
+             # (the alias is built first but not read: for the evaluator it is an ordering edge)
+             "order_only": e["orderonly"] + ([e["alias"]] if e.get("alias") else []),
              "outputs": e["outs"], "salt": e["salt"]}
         if e["depfile"]:
             c["deps"] = "makefile"
@@ -180,8 +189,8 @@ def write_manifest(ws, m):
         rule = ("run_dep" if e["depfile"] else "run_restat" if e["restat"] else "run_rsp" if e["rsp"]
                 else "run_gen" if e.get("gen") else "run")
         line = "build %s: %s %s" % (" ".join(e["outs"]), rule, " ".join(e["ins"]))
-        if e["implicit"]:
-            line += " | " + " ".join(e["implicit"])
+        if e["implicit"] or e.get("alias"):
+            line += " | " + " ".join(e["implicit"] + ([e["alias"]] if e.get("alias") else []))
         if e["orderonly"]:
             line += " || " + " ".join(e["orderonly"])
         L.append(line)
@@ -215,7 +224,7 @@ def ninja_build(ws, jobs, db):
 
 def default_roots(m):
     # no default statement: ninja builds every output that is not an input of another edge
-    consumed = {i for e in m["edges"] for i in e["ins"] + e["implicit"] + e["orderonly"]} | \
+    consumed = {i for e in m["edges"] for i in e["ins"] + e["implicit"] + e["orderonly"] + ([e["alias"]] if e.get("alias") else [])} | \
                {i for a in m["aliases"] for i in a["ins"]}
     roots = [o for e in m["edges"] for o in e["outs"] if o not in consumed] + [a["name"] for a in m["aliases"]
                                                                               if a["name"] not in consumed]
@@ -236,6 +245,10 @@ def apply_edit(m, ed):
             for a in m["aliases"]:
                 a["ins"] = [i for i in a["ins"] if i not in g["outs"]]
         m["aliases"] = [a for a in m["aliases"] if a["ins"]]
+        left = {a["name"] for a in m["aliases"]}
+        for e in m["edges"]:
+            if e.get("alias") and e["alias"] not in left:
+                e["alias"] = None
     elif ed["k"] == "rewire":
         for e in m["edges"]:
             if e["name"] == ed["edge"]:
@@ -264,6 +277,7 @@ def run_case(case, ctx, verbose=False):
         db = case["db"]
         cls = ["db" if db else "no-db"]
         nt = False
+        known_hit = False
         last_ok = False            # previous build succeeded and nothing changed since
         changes = []               # changes since the last successful build
         discovered = {}            # edge -> headers its last run reported
@@ -333,7 +347,10 @@ def run_case(case, ctx, verbose=False):
                 if db and last_ok and len(changes) == 1 and changes[0][0] in ("edit", "delete", "manifest"):
                     must, may = must_may(m, changes[0], discovered)
                     must = {c for c in must if c in needed}
-                    extra = [c for c in started if c not in may]
+                    af = alias_affected(m)
+                    extra = [c for c in started if c not in may and c not in af]
+                    if [c for c in started if c not in may and c in af]:
+                        known_hit = True
                     missing = [c for c in must if c not in started]
                     if extra:
                         return Outcome("build %d after %s started %s, which does not depend on the change "
@@ -345,8 +362,11 @@ def run_case(case, ctx, verbose=False):
                         nt = True
                     cls.append("one-change")
                 if db and last_ok and not changes and started:
-                    return Outcome("build %d with no change since the last successful build started %s" % (nb, started),
-                                   classes=cls)
+                    if set(started) <= alias_affected(m):
+                        known_hit = True
+                    else:
+                        return Outcome("build %d with no change since the last successful build started %s" % (nb, started),
+                                       classes=cls)
                 # record what each run discovered (for the next must/may computation)
                 for c in started:
                     e = next((e for e in m["edges"] if e["name"] == c), None)
@@ -362,7 +382,10 @@ def run_case(case, ctx, verbose=False):
                     if r2.rc != 0:
                         return Outcome("immediate rebuild failed: %s" % r2.stderr[-300:], classes=cls)
                     if r2.ran():
-                        return Outcome("an immediate rebuild after build %d re-ran %s" % (nb, r2.ran()), classes=cls)
+                        if set(r2.ran()) <= alias_affected(m):
+                            known_hit = True
+                        else:
+                            return Outcome("an immediate rebuild after build %d re-ran %s" % (nb, r2.ran()), classes=cls)
                 if "commands updated" in getattr(r, "stdout", "") or any(e["restat"] for e in m["edges"]):
                     pass
                 last_ok = True
@@ -375,7 +398,11 @@ def run_case(case, ctx, verbose=False):
             cls.append("generator")
         if any(e["depfile"] for e in m["edges"]):
             cls.append("depfile")
-        return Outcome(None, nontrivial=nt, classes=sorted(set(cls)))
+        if any(e.get("alias") for e in m["edges"]):
+            cls.append("alias-input")
+        if known_hit:
+            cls.append("known:" + FINDING)
+        return Outcome(None, nontrivial=nt, classes=sorted(set(cls)), known=FINDING if known_hit else None)
     finally:
         ws.cleanup()
 
@@ -386,6 +413,32 @@ def to_desc_phony(m):
         if c["tool"] == "phony-ninja":
             c["tool"] = "phony"
     return d
+
+
+def alias_ins(m, e):
+    if not e.get("alias"):
+        return []
+    return [i for a in m["aliases"] if a["name"] == e["alias"] for i in a["ins"]]
+
+
+FINDING = "C18-phony-alias-dependent-reruns"
+
+
+def alias_affected(m):
+    """Edges that take a phony alias as an input, and everything downstream of them (known finding: llbuild
+    re-runs these in every build, because a phony command whose output is not a file always forces a change)."""
+    af = {e["name"] for e in m["edges"] if e.get("alias")}
+    changed = True
+    while changed:
+        changed = False
+        for e in m["edges"]:
+            if e["name"] in af:
+                continue
+            ins = set(e["ins"] + e["implicit"] + alias_ins(m, e))
+            if any(o["name"] in af and set(o["outs"]) & ins for o in m["edges"]):
+                af.add(e["name"])
+                changed = True
+    return af
 
 
 def must_may(m, change, discovered):
@@ -418,7 +471,7 @@ def must_may(m, change, discovered):
             if e["name"] in may:
                 continue
             for other in edges:
-                if other["name"] in may and set(other["outs"]) & set(e["ins"] + e["implicit"]):
+                if other["name"] in may and set(other["outs"]) & set(e["ins"] + e["implicit"] + alias_ins(m, e)):
                     may.add(e["name"])
                     changed = True
                     break
@@ -428,3 +481,14 @@ def must_may(m, change, discovered):
         for e in edges:
             may.add(e["name"])
     return must, may
+
+
+def probes(ctx):
+    import json
+    out = []
+    for e in common.load_known(ID):
+        with open(os.path.join(common.VERIF, e["probe"])) as f:
+            case = json.load(f)
+        o = run_case(case, ctx)
+        out.append((e["id"], o.violation is None and o.known == e["id"], e["description"]))
+    return out
